@@ -171,6 +171,7 @@ func runC13(c *Ctx) {
 	c.meta.Rule = "items: Booleans; Integers (boundaries, random); Decimals (signs, leading/trailing zeros, positive and negative exponents, 30+ digits); Quantities over units {mg, 1, '', mg/dL, 'a b', days, kg.m2}; Date/DateTime/Time values of every layout x offsets {none, Z, +05:30, -11:00, -03:30, +14:00} from literals and from proto elements of every precision (incl. microseconds); FHIR primitive elements of 15 kinds; complex elements and resources; strings from a grammar of valid / near-valid renderings of every target type (~260 fixed, ~450 generated) plus byte-mutated neighbours; x 8 target types x {toT, convertsToT}; non-trivial = conversion yields a value; distinct by line"
 	type compiledPair struct{ to, cvt, idem, rt *fhirpath.Expression }
 	exprs := map[string]compiledPair{}
+	derived := map[string]*fhirpath.Expression{}
 	for _, t := range convTypes {
 		mk := func(src string) *fhirpath.Expression {
 			e, err := fhirpath.Compile(src)
@@ -181,6 +182,7 @@ func runC13(c *Ctx) {
 			return e
 		}
 		exprs[t] = compiledPair{mk("%x.to" + t + "()"), mk("%x.convertsTo" + t + "()"), mk("%x.to" + t + "().to" + t + "()"), mk("%x.toString().to" + t + "() = %x")}
+		derived[t] = mk("%x.to" + t + "().toString().to" + t + "() = %x.to" + t + "()")
 	}
 	input := []fhir.Resource{mustResource(`{"resourceType":"Patient","id":"p"}`)}
 	eval := func(e *fhirpath.Expression, x any) Outcome {
@@ -338,6 +340,18 @@ func runC13(c *Ctx) {
 			out2, _ := convOut(o2)
 			if rty == t {
 				c.Law(out2 == toOut, "C13/idempotent", "converting twice equals converting once", in, out2+" vs "+toOut)
+			}
+			// L5': the converted value itself round-trips through its string form
+			if rty == t && t != "String" {
+				class := "C13/roundtrip"
+				if q, ok := val.(system.Quantity); ok {
+					if _, u := quantityParts(q); !isLetters(u) {
+						class = "C13/roundtrip-quantity-unit"
+					}
+				}
+				o := eval(derived[t], x)
+				good := o.Err == nil && !o.Panicked && len(o.Coll) == 1 && o.Coll[0] == system.Boolean(true)
+				c.Law(good, class, "x.toString().toT() = x for x already of type T", fmt.Sprintf("y.toString().to%s() = y with y = %%x.to%s(), %%x = %s [%s]", t, t, descs[k], tok), canonOutcome(o, nil)+" (y = "+toOut+")")
 			}
 			// L6: conversion table
 			if ty != "none" {
